@@ -13,6 +13,8 @@ mod util;
 mod c01;
 mod c02;
 mod c03;
+mod c04;
+mod fdtxml;
 mod c06;
 mod c07;
 mod c08;
@@ -65,6 +67,7 @@ fn main() {
             "C01" => c01::replay(&v["replay"]),
             "C02" => c02::replay(&v["replay"]),
             "C03" => c03::replay(&v["replay"]),
+            "C04" => c04::replay(&v["replay"]),
             "C06" => c06::replay(&v["replay"]),
             "C07" => c07::replay(&v["replay"]),
             "C08" => c08::replay(&v["replay"]),
@@ -88,6 +91,7 @@ fn main() {
             "C01" => c01::run(thorough),
             "C02" => c02::run(thorough),
             "C03" => c03::run(thorough),
+            "C04" => c04::run(thorough),
             "C06" => c06::run(thorough),
             "C07" => c07::run(thorough),
             "C08" => c08::run(thorough),
